@@ -52,6 +52,60 @@ fn one_chain(rng: &mut Rng, reps: usize) {
         }
         _ => Mesh::create_cylinder(rng.range(0.5, 2.0), rng.range(0.5, 2.0), rng.int(3, 9) as usize),
     };
+    // scanned / imported meshes often carry vertices no face refers to: insert some, anywhere in the list
+    let mesh = if rng.chance(0.35) {
+        let mut vs: Vec<Point3> = mesh.vertices().to_vec();
+        let mut fs: Vec<[u32; 3]> = mesh.faces().to_vec();
+        for _ in 0..rng.int(1, 4) {
+            let at = rng.below(vs.len() + 1);
+            vs.insert(at, Point3::new(rng.range(-9.0, 9.0), rng.range(-9.0, 9.0), rng.range(-9.0, 9.0)));
+            for f in fs.iter_mut() {
+                for k in f.iter_mut() {
+                    if *k as usize >= at {
+                        *k += 1;
+                    }
+                }
+            }
+        }
+        Mesh::new(vs, fs, false)
+    } else {
+        mesh
+    };
+    // the mesh built from a list of faces, directly: all faces (in order and shuffled), a random subset
+    {
+        let nf = mesh.faces().len();
+        let mut v = Verdict::new();
+        for kind in 0..3 {
+            let mut idx: Vec<usize> = match kind {
+                0 => (0..nf).collect(),
+                1 => (0..nf).rev().collect(),
+                _ => (0..nf).filter(|_| rng.chance(0.5)).collect(),
+            };
+            if kind == 1 {
+                rng.shuffle(&mut idx);
+            }
+            if idx.is_empty() {
+                continue;
+            }
+            match guarded(|| mesh.create_from_indices(&idx)) {
+                Err(e) => v.require(false, "create_from_indices.panics", || e.clone()),
+                Ok(nm) => {
+                    let tri = |m: &Mesh, t: &[u32; 3]| -> [[u64; 3]; 3] {
+                        let p = |k: usize| { let q: Point3 = m.vertices()[t[k] as usize]; [q.x.to_bits(), q.y.to_bits(), q.z.to_bits()] };
+                        [p(0), p(1), p(2)]
+                    };
+                    let mut want: Vec<[[u64; 3]; 3]> = idx.iter().map(|f| tri(&mesh, &mesh.faces()[*f])).collect();
+                    let mut have: Vec<[[u64; 3]; 3]> = nm.faces().iter().map(|t| tri(&nm, t)).collect();
+                    want.sort();
+                    have.sort();
+                    v.require(want == have, "create_from_indices.same_triangles_coordinates_and_winding", || format!("kind {kind}: {} vs {}", want.len(), have.len()));
+                    let used: BTreeSet<u32> = idx.iter().flat_map(|f| mesh.faces()[*f].to_vec()).collect();
+                    v.require(nm.vertices().len() == used.len(), "create_from_indices.only_used_vertices", || format!("kind {kind}: built mesh has {} vertices, its faces use {} (source has {})", nm.vertices().len(), used.len(), mesh.vertices().len()));
+                }
+            }
+        }
+        emit_oracle_only("select.create_from_indices", &Tok::new(), &Tok::new(), &v);
+    }
     // reference mesh: a displaced / partial copy, so that some vertices are near and some are not
     let shift = gen::iso3(rng, 0.3);
     let small = engeom::geom3::Iso3::new(shift.translation.vector, shift.rotation.scaled_axis() * 0.05);
